@@ -66,18 +66,21 @@ theorem sendData_Ext (s : S) (d : Bytes) (sync : Bool) (chop : Nat) : Ext s (sen
       · exact emit_Ext _ _ rfl
       · exact emit_Ext _ _ rfl
 
+theorem drawKey_Ext (s : S) : Ext s (drawKey s).1 := by
+  unfold drawKey
+  split
+  · exact Ext.of_eq rfl rfl rfl rfl
+  · exact Ext.refl _
+
+theorem recordOp_Ext (s : S) (op : Nat) : Ext s (recordOp s op) := Ext.of_eq rfl rfl rfl rfl
+
 theorem sendFrame_Ext (s : S) (opcode : Nat) (pl : Bytes) (fin : Bool) (rsv : Nat) (sync : Bool) (chop : Nat) :
     Ext s (sendFrame s opcode pl fin rsv sync chop) := by
   unfold sendFrame
+  dsimp only
   split
-  rename_i s' key heq
-  have h0 : Ext s s' := by
-    split at heq <;> cases heq
-    · exact Ext.of_eq rfl rfl rfl rfl
-    · exact Ext.refl _
-  split
-  · exact h0.trans (emit_Ext _ _ rfl)
-  · exact h0.trans (Ext.trans (by exact Ext.of_eq rfl rfl rfl rfl) (sendData_Ext _ _ _ _))
+  · exact (drawKey_Ext s).trans (emit_Ext _ _ rfl)
+  · exact (drawKey_Ext s).trans ((recordOp_Ext _ _).trans (sendData_Ext _ _ _ _))
 
 theorem sendPing_Ext (s : S) (pl : Bytes) : Ext s (sendPing s pl) := by
   unfold sendPing
@@ -153,5 +156,486 @@ theorem failConnection_Ext (s : S) (code : Nat) : Ext s (failConnection s code) 
   · exact Ext.refl s
 
 theorem violation_Ext (s : S) (code : Nat) : Ext s (violation s code).1 := failConnection_Ext s code
+
+end Abverif.Ws
+
+namespace Abverif.Ws
+
+/-! ### receive path -/
+
+theorem closeCodeStep_Ext (s : S) (code : Option Nat) : Ext s (closeCodeStep s code).1 := by
+  unfold closeCodeStep
+  split
+  · split
+    · have hv := violation_Ext s 1002
+      generalize violation s 1002 = r at hv
+      obtain ⟨s', stop⟩ := r
+      dsimp only
+      split
+      · exact hv
+      · exact hv.trans (by exact Ext.of_eq rfl rfl rfl rfl)
+    · exact Ext.of_eq rfl rfl rfl rfl
+  · exact Ext.of_eq rfl rfl rfl rfl
+
+theorem closeReasonStep_Ext (s : S) (r : Option Bytes) : Ext s (closeReasonStep s r).1 := by
+  unfold closeReasonStep
+  split
+  · split
+    · exact violation_Ext _ _
+    · exact Ext.of_eq rfl rfl rfl rfl
+  · exact Ext.refl s
+
+theorem replyClose_Ext (s : S) : Ext s (replyClose s) := by
+  unfold replyClose
+  split <;> exact sendCloseFrame_Ext _ _ _ _
+
+theorem afterCloseHandshake_Ext (s : S) (a : Bool) : Ext s (afterCloseHandshake s a).1 := by
+  unfold afterCloseHandshake
+  split
+  · exact dropConnection_Ext _ _
+  · split
+    · exact armServerDrop_Ext _
+    · exact Ext.refl s
+
+theorem closeStateStep_Ext (s : S) : Ext s (closeStateStep s).1 := by
+  unfold closeStateStep
+  split
+  · exact Ext.trans (by exact Ext.of_eq rfl rfl rfl rfl) (afterCloseHandshake_Ext _ _)
+  · exact Ext.trans (Ext.trans (by exact Ext.of_eq rfl rfl rfl rfl) (replyClose_Ext _)) (afterCloseHandshake_Ext _ _)
+  · exact Ext.of_eq rfl rfl rfl rfl
+  · exact emit_Ext _ _ rfl
+
+theorem onCloseFrame_Ext (s : S) (code : Option Nat) (reason : Option Bytes) : Ext s (onCloseFrame s code reason).1 := by
+  unfold onCloseFrame
+  dsimp only
+  have h0 : Ext s { s with remoteCloseCode := none, remoteCloseReason := none } := Ext.of_eq rfl rfl rfl rfl
+  have h1 := closeCodeStep_Ext { s with remoteCloseCode := none, remoteCloseReason := none } code
+  split
+  · exact h0.trans h1
+  · have h2 := closeReasonStep_Ext (closeCodeStep { s with remoteCloseCode := none, remoteCloseReason := none } code).1 reason
+    split
+    · exact (h0.trans h1).trans h2
+    · exact ((h0.trans h1).trans h2).trans (closeStateStep_Ext _)
+
+theorem beginAutoPing_Ext (s : S) : Ext s (beginAutoPing s) := Ext.of_eq rfl rfl rfl rfl
+
+theorem sendAutoPing_Ext (s : S) : Ext s (sendAutoPing s) := by
+  unfold sendAutoPing
+  dsimp only
+  have h := (beginAutoPing_Ext s).trans (sendPing_Ext (beginAutoPing s) ((beginAutoPing s).pingPending.getD []))
+  split
+  · exact h.trans (armPingTimeout_Ext _)
+  · exact h
+
+theorem cancelAutoPingTimeout_Ext (s : S) : Ext s (cancelAutoPingTimeout s) := by
+  unfold cancelAutoPingTimeout
+  dsimp only
+  split
+  · exact Ext.trans (by exact Ext.of_eq rfl rfl rfl rfl) (armPingNext_Ext _)
+  · exact Ext.of_eq rfl rfl rfl rfl
+
+theorem onMessageFrameBegin_Ext (s : S) (n : Nat) : Ext s (onMessageFrameBegin s n) := by
+  unfold onMessageFrameBegin
+  dsimp only
+  split
+  · split
+    · exact Ext.trans (by exact Ext.of_eq rfl rfl rfl rfl) (failConnection_Ext _ _)
+    · split
+      · exact Ext.trans (by exact Ext.of_eq rfl rfl rfl rfl) (failConnection_Ext _ _)
+      · exact Ext.of_eq rfl rfl rfl rfl
+  · exact Ext.of_eq rfl rfl rfl rfl
+
+theorem onFrameBegin_Ext (s : S) (h : Hdr) : Ext s (onFrameBegin s h) := by
+  unfold onFrameBegin
+  split
+  · exact Ext.of_eq rfl rfl rfl rfl
+  · dsimp only
+    refine Ext.trans ?_ (onMessageFrameBegin_Ext _ _)
+    split
+    · split <;> exact Ext.of_eq rfl rfl rfl rfl
+    · exact Ext.refl s
+
+theorem utf8Step_Ext (s : S) (p : Bytes) : Ext s (utf8Step s p).1 := by
+  unfold utf8Step
+  split
+  · dsimp only
+    split
+    · exact Ext.trans (by exact Ext.of_eq rfl rfl rfl rfl) (violation_Ext _ _)
+    · exact Ext.of_eq rfl rfl rfl rfl
+  · exact Ext.refl s
+
+theorem onMessageFrameData_Ext (s : S) (p : Bytes) : Ext s (onMessageFrameData s p) := by
+  unfold onMessageFrameData
+  split
+  · exact Ext.of_eq rfl rfl rfl rfl
+  · exact Ext.refl s
+
+theorem onFrameData_Ext (s : S) (h : Hdr) (p : Bytes) : Ext s (onFrameData s h p).1 := by
+  unfold onFrameData
+  split
+  · exact Ext.of_eq rfl rfl rfl rfl
+  · dsimp only
+    split
+    · exact utf8Step_Ext _ _
+    · exact (utf8Step_Ext _ _).trans (onMessageFrameData_Ext _ _)
+
+theorem onPongFrame_Ext (s : S) (p : Bytes) : Ext s (onPongFrame s p) := by
+  unfold onPongFrame
+  split
+  · split
+    · dsimp only
+      split
+      · exact Ext.trans (by exact Ext.of_eq rfl rfl rfl rfl) (armPingNext_Ext _)
+      · exact Ext.of_eq rfl rfl rfl rfl
+    · exact Ext.refl s
+  · exact Ext.refl s
+
+theorem onPingFrame_Ext (s : S) (p : Bytes) : Ext s (onPingFrame s p) := by
+  unfold onPingFrame
+  dsimp only
+  split
+  · exact (emit_Ext _ _ rfl).trans (sendPong_Ext _ _)
+  · exact emit_Ext _ _ rfl
+
+theorem processControlFrame_Ext (s : S) (h : Hdr) : Ext s (processControlFrame s h) := by
+  unfold processControlFrame
+  dsimp only
+  have h0 : Ext s { s with controlData := [] } := Ext.of_eq rfl rfl rfl rfl
+  split
+  · exact h0.trans (onCloseFrame_Ext _ _ _)
+  · split
+    · exact h0.trans (onPingFrame_Ext _ _)
+    · split
+      · exact h0.trans ((onPongFrame_Ext _ _).trans (emit_Ext _ _ rfl))
+      · exact h0
+
+theorem endDataFrame_Ext (s : S) : Ext s (endDataFrame s) := by
+  unfold endDataFrame
+  dsimp only
+  have h0 : Ext s (if (!s.failedByMe) = true then { s with messageData := s.messageData ++ s.frameData } else s) := by
+    split
+    · exact Ext.of_eq rfl rfl rfl rfl
+    · exact Ext.refl s
+  generalize (if (!s.failedByMe) = true then { s with messageData := s.messageData ++ s.frameData } else s) = s1 at h0
+  split
+  · exact h0.trans (Ext.trans (by exact Ext.of_eq rfl rfl rfl rfl) (cancelAutoPingTimeout_Ext _))
+  · exact h0.trans (by exact Ext.of_eq rfl rfl rfl rfl)
+
+theorem deliverMessage_Ext (s : S) : Ext s (deliverMessage s) := by
+  unfold deliverMessage
+  split
+  · exact emit_Ext _ _ rfl
+  · exact Ext.refl s
+
+theorem resetMessage_Ext (s : S) : Ext s (resetMessage s) := Ext.of_eq rfl rfl rfl rfl
+
+theorem endMessageStep_Ext (s : S) : Ext s (endMessageStep s).1 := by
+  unfold endMessageStep
+  dsimp only
+  have h0 : Ext s (if (s.utf8On && !s.msgCompressed && !s.utf8Ends) = true then
+      ((violation s 1007).1, !(violation s 1007).2) else (s, true)).1 := by
+    split
+    · exact violation_Ext _ _
+    · exact Ext.refl s
+  generalize (if (s.utf8On && !s.msgCompressed && !s.utf8Ends) = true then
+      ((violation s 1007).1, !(violation s 1007).2) else (s, true)) = r at h0
+  split
+  · exact h0
+  · exact h0.trans ((deliverMessage_Ext _).trans (resetMessage_Ext _))
+
+theorem onFrameEnd_Ext (s : S) (h : Hdr) : Ext s (onFrameEnd s h).1 := by
+  unfold onFrameEnd
+  split
+  · exact (processControlFrame_Ext _ _).trans (by exact Ext.of_eq rfl rfl rfl rfl)
+  · dsimp only
+    split
+    · exact (endDataFrame_Ext _).trans (endMessageStep_Ext _)
+    · exact (endDataFrame_Ext _).trans (by exact Ext.of_eq rfl rfl rfl rfl)
+
+theorem applyViolations_Ext (s : S) (vs : List HV) : Ext s (applyViolations s vs).1 := by
+  induction vs generalizing s with
+  | nil => exact Ext.refl s
+  | cons v vs ih =>
+    unfold applyViolations
+    have hv := violation_Ext s 1002
+    generalize violation s 1002 = r at hv
+    obtain ⟨s', stop⟩ := r
+    dsimp only
+    split
+    · exact hv
+    · exact hv.trans (ih _)
+
+theorem extLenStep_Ext (s : S) (a b : Nat) : Ext s (extLenStep s a b).1 := by
+  unfold extLenStep
+  split
+  · split
+    · exact violation_Ext _ _
+    · exact Ext.refl s
+  · split
+    · dsimp only
+      have h0 : Ext s (if b > 0x7FFFFFFFFFFFFFFF then violation s 1002 else (s, false)).1 := by
+        split
+        · exact violation_Ext _ _
+        · exact Ext.refl s
+      generalize (if b > 0x7FFFFFFFFFFFFFFF then violation s 1002 else (s, false)) = r at h0
+      split
+      · exact h0
+      · split
+        · exact h0.trans (violation_Ext _ _)
+        · exact h0
+    · exact Ext.refl s
+
+theorem processHeader_Ext (s : S) (o0 o1 : UInt8) : Ext s (processHeader s o0 o1).1 := by
+  unfold processHeader
+  dsimp only
+  have h0 := applyViolations_Ext s (headerViolations s.cfg s.insideMessage (o0.toNat / 128 = 1) (o0.toNat / 16 % 8)
+    (o0.toNat % 16) (o1.toNat / 128 = 1) (o1.toNat % 128))
+  generalize applyViolations s (headerViolations s.cfg s.insideMessage (o0.toNat / 128 = 1) (o0.toNat / 16 % 8)
+    (o0.toNat % 16) (o1.toNat / 128 = 1) (o1.toNat % 128)) = r0 at h0
+  split
+  · exact h0
+  · split
+    · have h1 := extLenStep_Ext r0.1 (o1.toNat % 128)
+        (if o1.toNat % 128 < 126 then o1.toNat % 128 else
+          beNat ((r0.1.data.drop 2).take (if o1.toNat % 128 = 126 then 2 else if o1.toNat % 128 = 127 then 8 else 0)))
+      generalize extLenStep r0.1 (o1.toNat % 128)
+        (if o1.toNat % 128 < 126 then o1.toNat % 128 else
+          beNat ((r0.1.data.drop 2).take (if o1.toNat % 128 = 126 then 2 else if o1.toNat % 128 = 127 then 8 else 0))) = r1 at h1
+      split
+      · exact h0.trans h1
+      · exact (h0.trans h1).trans (Ext.trans (by exact Ext.of_eq rfl rfl rfl rfl) (onFrameBegin_Ext _ _))
+    · exact h0
+
+theorem processPayload_Ext (s : S) (h : Hdr) : Ext s (processPayload s h).1 := by
+  unfold processPayload
+  dsimp only
+  have h0 : Ext s { s with data := s.data.drop (h.length - s.ptr), ptr := s.ptr + (s.data.take (h.length - s.ptr)).length } :=
+    Ext.of_eq rfl rfl rfl rfl
+  have h1 := onFrameData_Ext { s with data := s.data.drop (h.length - s.ptr), ptr := s.ptr + (s.data.take (h.length - s.ptr)).length }
+    h (unmaskChunk s h (s.data.take (h.length - s.ptr)))
+  generalize onFrameData { s with data := s.data.drop (h.length - s.ptr), ptr := s.ptr + (s.data.take (h.length - s.ptr)).length }
+    h (unmaskChunk s h (s.data.take (h.length - s.ptr))) = r at h1
+  split
+  · exact h0.trans h1
+  · have h2 : Ext r.1 (if r.1.ptr = h.length then onFrameEnd r.1 h else (r.1, true)).1 := by
+      split
+      · exact onFrameEnd_Ext _ _
+      · exact Ext.refl _
+    generalize (if r.1.ptr = h.length then onFrameEnd r.1 h else (r.1, true)) = r2 at h2
+    split
+    · exact (h0.trans h1).trans h2
+    · exact (h0.trans h1).trans h2
+
+theorem processData_Ext (s : S) : Ext s (processData s).1 := by
+  unfold processData
+  split
+  · split
+    · exact processHeader_Ext _ _ _
+    · exact Ext.refl s
+  · exact processPayload_Ext _ _
+
+theorem drain_Ext (fuel : Nat) (s : S) : Ext s (drain fuel s) := by
+  induction fuel generalizing s with
+  | zero => exact Ext.refl s
+  | succ n ih =>
+    unfold drain
+    have h := processData_Ext s
+    generalize processData s = r at h
+    obtain ⟨s', again⟩ := r
+    dsimp only
+    split
+    · exact h.trans (ih _)
+    · exact h
+
+theorem dataReceived_Ext (s : S) (d : Bytes) : Ext s (dataReceived s d) := by
+  unfold dataReceived
+  split
+  · exact Ext.refl s
+  · dsimp only
+    split
+    · exact Ext.trans (by exact Ext.of_eq rfl rfl rfl rfl) (drain_Ext _ _)
+    · exact Ext.trans (by exact Ext.of_eq rfl rfl rfl rfl) (drain_Ext _ _)
+    · exact Ext.of_eq rfl rfl rfl rfl
+
+end Abverif.Ws
+
+namespace Abverif.Ws
+
+/-! ### send API, timers, steps -/
+
+theorem sendFrags_Ext (opcode : Nat) (sync : Bool) (l : List (Bytes × Bool)) :
+    ∀ (s : S) (first : Bool), Ext s (sendFrags s opcode sync l first) := by
+  induction l with
+  | nil => intro s first; exact Ext.refl s
+  | cons x xs ih =>
+    intro s first
+    obtain ⟨p, fin⟩ := x
+    unfold sendFrags
+    exact (sendFrame_Ext _ _ _ _ _ _ _).trans (ih _ _)
+
+theorem sendMessage_Ext (s : S) (pl : Bytes) (b : Bool) (f : Option Nat) (sy : Bool) :
+    Ext s (sendMessage s pl b f sy) := by
+  unfold sendMessage
+  split
+  · exact emit_Ext _ _ rfl
+  · split
+    · exact emit_Ext _ _ rfl
+    · dsimp only
+      split
+      · exact sendFrame_Ext _ _ _ _ _ _ _
+      · split
+        · exact sendFrame_Ext _ _ _ _ _ _ _
+        · split
+          · exact emit_Ext _ _ rfl
+          · exact sendFrags_Ext _ _ _ _ _
+
+theorem prepareKey_Ext (s : S) : Ext s (prepareKey s).1 := by
+  unfold prepareKey
+  split
+  · exact Ext.of_eq rfl rfl rfl rfl
+  · exact Ext.refl _
+
+theorem sendPrepared_Ext (s : S) (pl : Bytes) (b : Bool) : Ext s (sendPrepared s pl b) := by
+  unfold sendPrepared
+  dsimp only
+  split
+  · exact (prepareKey_Ext s).trans (emit_Ext _ _ rfl)
+  · split
+    · exact (prepareKey_Ext s).trans (emit_Ext _ _ rfl)
+    · exact (prepareKey_Ext s).trans ((recordOp_Ext _ _).trans (sendData_Ext _ _ _ _))
+
+theorem beginMessage_Ext (s : S) (b : Bool) : Ext s (beginMessage s b) := by
+  unfold beginMessage
+  split
+  · exact Ext.refl s
+  · split
+    · exact emit_Ext _ _ rfl
+    · exact Ext.of_eq rfl rfl rfl rfl
+
+theorem setFrameState_Ext (s : S) (n : Nat) (k : Option Xor.Key) (op : Nat) : Ext s (setFrameState s n k op) :=
+  Ext.of_eq rfl rfl rfl rfl
+
+theorem enterFrame_Ext (s : S) : Ext s (enterFrame s) := Ext.of_eq rfl rfl rfl rfl
+
+theorem beginMessageFrameCore_Ext (s : S) (n : Nat) (s' : S) (h : beginMessageFrameCore s n = some s') : Ext s s' := by
+  unfold beginMessageFrameCore at h
+  split at h
+  · cases h
+  · split at h
+    · cases h
+    · dsimp only at h
+      split at h
+      · cases h
+      · cases h
+        exact (drawKey_Ext s).trans ((setFrameState_Ext _ _ _ _).trans ((sendData_Ext _ _ _ _).trans (enterFrame_Ext _)))
+
+theorem beginMessageFrame_Ext (s : S) (n : Nat) : Ext s (beginMessageFrame s n) := by
+  unfold beginMessageFrame
+  split
+  · exact Ext.refl s
+  · split
+    · rename_i s' h; exact beginMessageFrameCore_Ext s n s' h
+    · exact emit_Ext _ _ rfl
+
+theorem advanceFramePtr_Ext (s : S) (n : Nat) : Ext s (advanceFramePtr s n) := Ext.of_eq rfl rfl rfl rfl
+
+theorem leaveFrameIfDone_Ext (s : S) : Ext s (leaveFrameIfDone s) := by
+  unfold leaveFrameIfDone
+  split
+  · exact Ext.of_eq rfl rfl rfl rfl
+  · exact Ext.refl s
+
+theorem sendMessageFrameData_Ext (s : S) (pl : Bytes) (sy : Bool) : Ext s (sendMessageFrameData s pl sy) := by
+  unfold sendMessageFrameData
+  split
+  · exact Ext.refl s
+  · split
+    · exact emit_Ext _ _ rfl
+    · split
+      · exact emit_Ext _ _ rfl
+      · exact (advanceFramePtr_Ext _ _).trans ((sendData_Ext _ _ _ _).trans (leaveFrameIfDone_Ext _))
+
+theorem endMessage_Ext (s : S) : Ext s (endMessage s) := by
+  unfold endMessage
+  split
+  · exact Ext.refl s
+  · split
+    · exact emit_Ext _ _ rfl
+    · exact (sendFrame_Ext _ _ _ _ _ _ _).trans (by exact Ext.of_eq rfl rfl rfl rfl)
+
+theorem sendMessageFrame_Ext (s : S) (pl : Bytes) (sy : Bool) : Ext s (sendMessageFrame s pl sy) := by
+  unfold sendMessageFrame
+  split
+  · exact Ext.refl s
+  · split
+    · exact emit_Ext _ _ rfl
+    · split
+      · rename_i s' h
+        exact (beginMessageFrameCore_Ext s _ s' h).trans (sendMessageFrameData_Ext _ _ _)
+      · exact emit_Ext _ _ rfl
+
+theorem handshakeDone_Ext (s : S) : Ext s (handshakeDone s) := by
+  unfold handshakeDone
+  split
+  · exact Ext.refl s
+  · rename_i h
+    have hc : s.st = .connecting := by simpa using h
+    dsimp only
+    have h0 : Ext s { s with st := .opened, tOpenHs := none } :=
+      Ext.of_st (by rw [hc]; simp [St.rank]) rfl rfl rfl
+    split
+    · exact h0.trans (armPingNext_Ext _)
+    · exact h0
+
+theorem fire_Ext (s : S) (k : TK) : Ext s (fire s k) := by
+  cases k <;> simp only [fire]
+  · split
+    · exact Ext.trans (by exact Ext.of_eq rfl rfl rfl rfl) (dropConnection_Ext _ _)
+    · exact Ext.of_eq rfl rfl rfl rfl
+  · split
+    · exact Ext.trans (by exact Ext.of_eq rfl rfl rfl rfl) (dropConnection_Ext _ _)
+    · exact Ext.of_eq rfl rfl rfl rfl
+  · split
+    · exact Ext.trans (by exact Ext.of_eq rfl rfl rfl rfl) (dropConnection_Ext _ _)
+    · exact Ext.of_eq rfl rfl rfl rfl
+  · split
+    · exact Ext.trans (by exact Ext.of_eq rfl rfl rfl rfl) (dropConnection_Ext _ _)
+    · exact Ext.of_eq rfl rfl rfl rfl
+  · exact sendAutoPing_Ext _
+  · exact Ext.trans (by exact Ext.of_eq rfl rfl rfl rfl) (sendTick_Ext _)
+
+theorem advanceTo_Ext (target fuel : Nat) (s : S) : Ext s (advanceTo target fuel s) := by
+  induction fuel generalizing s with
+  | zero => exact Ext.refl s
+  | succ n ih =>
+    unfold advanceTo
+    split
+    · split
+      · exact Ext.trans (Ext.trans (by exact Ext.of_eq rfl rfl rfl rfl) (fire_Ext _ _)) (ih _)
+      · exact Ext.of_eq rfl rfl rfl rfl
+    · exact Ext.of_eq rfl rfl rfl rfl
+
+theorem pump_Ext (s : S) : Ext s (pump s) := advanceTo_Ext _ _ _
+
+theorem advance_Ext (s : S) (dt : Nat) : Ext s (advance s dt) := advanceTo_Ext _ _ _
+
+/-- every scripted operation except the framework's connection-lost notification -/
+theorem stepCore_Ext (s : S) (op : Op) (h : op ≠ .lost) : Ext s (stepCore s op) := by
+  cases op <;> simp only [stepCore]
+  · exact dataReceived_Ext _ _
+  · exact absurd rfl h
+  · exact advance_Ext _ _
+  · exact sendMessage_Ext _ _ _ _ _
+  · exact sendPrepared_Ext _ _ _
+  · exact beginMessage_Ext _ _
+  · exact beginMessageFrame_Ext _ _
+  · exact sendMessageFrameData_Ext _ _ _
+  · exact endMessage_Ext _
+  · exact sendMessageFrame_Ext _ _ _
+  · exact sendPing_Ext _ _
+  · exact sendPong_Ext _ _
+  · exact sendClose_Ext _ _ _
+  · exact handshakeDone_Ext _
+  · exact (handshakeDone_Ext _).trans (dataReceived_Ext _ _)
 
 end Abverif.Ws
